@@ -79,6 +79,19 @@ func checkC16(c c16Case) verdict {
 		}
 		return bad(nt, labels, "ParseOTPAuthURL(%q) failed: %v (input %+v)", text, err, p)
 	}
+	// what earlier parses returned stays what it was: the last 40 results are kept by pointer next to a copy of their
+	// value (a parser handing out slots of a table of its own overwrites them after a while)
+	for _, k := range c16Kept {
+		if *k.ptr != k.val {
+			was, is := k.val, *k.ptr
+			c16Kept = nil
+			return bad(true, labels, "a result ParseOTPAuthURL returned earlier changed after later parses: %+v -> %+v", was, is)
+		}
+	}
+	c16Kept = append(c16Kept, c16KeptResult{got, *got})
+	if len(c16Kept) > 40 {
+		c16Kept = c16Kept[1:]
+	}
 	wantDigits := c.Digits
 	if wantDigits == 0 {
 		wantDigits = 6
@@ -143,6 +156,13 @@ func drawURLString(t *rapid.T, label string, allowColon bool) string {
 	}
 	return s
 }
+
+type c16KeptResult struct {
+	ptr *otp.URLParam
+	val otp.URLParam
+}
+
+var c16Kept []c16KeptResult
 
 func genC16(t *rapid.T) c16Case {
 	c := c16Case{Kind: rapid.SampledFrom([]string{"totp", "hotp"}).Draw(t, "kind"),
